@@ -104,6 +104,172 @@ def _flat(stmts, depth=0):
     return out
 
 
+class _Effects:
+    """
+    The sequence of EFFECTS of a Worker method on the worker's shared fields, in evaluation order, with private helper
+    methods of the class expanded in place: wait / clear / set on `job_available`, reads and writes of the job slot,
+    the call of the job, `notify_done`, the loop and its exit condition, the try/except frame.  Local variable names,
+    helper names, docstrings, type hints, log calls and the spelling of the loop (`while True: ... if c: break` or
+    `while helper():`) do not show; the ORDER of the effects does.  Anything not understood is emitted literally
+    ("?..."), which can only make the obligation fail, never pass.
+    """
+
+    def __init__(self, methods):
+        self.methods = methods
+        self.out = []
+
+    @staticmethod
+    def neg(v):
+        return v[4:] if v.startswith("not ") else "not " + v
+
+    def expr(self, node, env, stack):
+        if isinstance(node, ast.Constant):
+            return repr(node.value)
+        if isinstance(node, ast.Name):
+            return env.get(node.id, node.id)
+        if isinstance(node, ast.Attribute):
+            base = self.expr(node.value, env, stack)
+            if base == "self":
+                if node.attr == "job":
+                    self.out.append("read-slot")
+                    return "slot"
+                if node.attr == "job_available":
+                    return "event"
+                if node.attr == "pool":
+                    return "pool"
+                return "self." + node.attr
+            return base + "." + node.attr
+        if isinstance(node, ast.Compare) and len(node.ops) == 1:
+            l = self.expr(node.left, env, stack)
+            r = self.expr(node.comparators[0], env, stack)
+            op = node.ops[0]
+            if isinstance(op, (ast.Is, ast.Eq)) and r == "None":
+                return "isnone(%s)" % l
+            if isinstance(op, (ast.IsNot, ast.NotEq)) and r == "None":
+                return "not isnone(%s)" % l
+            return "(%s %s %s)" % (l, type(op).__name__, r)
+        if isinstance(node, ast.UnaryOp) and isinstance(node.op, ast.Not):
+            return self.neg(self.expr(node.operand, env, stack))
+        if isinstance(node, ast.BoolOp):
+            vals = [self.expr(v, env, stack) for v in node.values]
+            return "(" + (" and " if isinstance(node.op, ast.And) else " or ").join(vals) + ")"
+        if isinstance(node, ast.Call):
+            f = node.func
+            if isinstance(f, ast.Attribute) and isinstance(f.value, ast.Name) and f.value.id == "log":
+                return "None"                                   # logging is not an effect on the pool
+            if isinstance(f, ast.Attribute):
+                if isinstance(f.value, ast.Name) and f.value.id == "self" and f.attr == "job":
+                    self.out.append("read-slot")
+                    args = [self.expr(a, env, stack) for a in node.args]
+                    self.out.append("call-job" + ("(%s)" % ",".join(args) if args else ""))
+                    return "job-result"
+                if isinstance(f.value, ast.Name) and f.value.id == "self" and f.attr in self.methods and f.attr not in stack \
+                        and f.attr not in ("run", "process", "start", "join"):
+                    return self.inline(self.methods[f.attr], [self.expr(a, env, stack) for a in node.args], stack + (f.attr,))
+                base = self.expr(f.value, env, stack)
+                args = [self.expr(a, env, stack) for a in node.args] + ["%s=%s" % (k.arg, self.expr(k.value, env, stack)) for k in node.keywords]
+                if base == "event" and f.attr in ("wait", "clear", "set", "is_set", "isSet"):
+                    self.out.append(f.attr + ("(%s)" % ",".join(args) if args else ""))
+                    return "event." + f.attr
+                if base == "pool":
+                    self.out.append("%s(%s)" % (f.attr, ",".join(args)))
+                    return "pool." + f.attr
+                self.out.append("?call %s.%s(%s)" % (base, f.attr, ",".join(args)))
+                return "?"
+            self.out.append("?call " + ast.unparse(node))
+            return "?"
+        self.out.append("?expr " + ast.unparse(node))
+        return "?"
+
+    def inline(self, fn, args, stack):
+        params = [a.arg for a in fn.args.args]
+        env = {"self": "self"}
+        for p_, v in zip(params[1:], args):
+            env[p_] = v
+        body = [st for st in fn.body]
+        ret = "None"
+        for i, st in enumerate(body):
+            if isinstance(st, ast.Return):
+                if i != len(body) - 1:
+                    self.out.append("?early-return")
+                ret = self.expr(st.value, env, stack) if st.value is not None else "None"
+                break
+            self.stmt(st, env, stack)
+        return ret
+
+    def stmts(self, body, env, stack):
+        for st in body:
+            self.stmt(st, env, stack)
+
+    def stmt(self, st, env, stack):
+        if isinstance(st, ast.Expr):
+            if isinstance(st.value, ast.Constant):
+                return                                          # docstring
+            self.expr(st.value, env, stack)
+        elif isinstance(st, (ast.Assign, ast.AnnAssign)):
+            value = self.expr(st.value, env, stack) if st.value is not None else "None"
+            targets = st.targets if isinstance(st, ast.Assign) else [st.target]
+            for t in targets:
+                if isinstance(t, ast.Name):
+                    env[t.id] = value
+                elif isinstance(t, ast.Attribute) and isinstance(t.value, ast.Name) and t.value.id == "self":
+                    self.out.append("%s:=%s" % ("slot" if t.attr == "job" else t.attr, value))
+                else:
+                    self.out.append("?assign " + ast.unparse(t))
+        elif isinstance(st, ast.If):
+            v = self.expr(st.test, env, stack)
+            if len(st.body) == 1 and isinstance(st.body[0], ast.Break) and not st.orelse:
+                self.out.append("exit-if " + v)
+            else:
+                self.out.append("if %s [" % v)
+                self.stmts(st.body, env, stack)
+                self.out.append("] else [")
+                self.stmts(st.orelse, env, stack)
+                self.out.append("]")
+        elif isinstance(st, ast.While):
+            self.out.append("loop[")
+            v = self.expr(st.test, env, stack)
+            if v != "True":
+                self.out.append("exit-if " + self.neg(v))
+            self.stmts(st.body, env, stack)
+            self.out.append("]")
+            if st.orelse:
+                self.out.append("?while-else")
+        elif isinstance(st, ast.Try):
+            self.out.append("try[")
+            self.stmts(st.body, env, stack)
+            for hd in st.handlers:
+                self.out.append("]except %s[" % (ast.unparse(hd.type) if hd.type else ""))
+                self.stmts(hd.body, env, stack)
+            if st.orelse:
+                self.out.append("]else[")
+                self.stmts(st.orelse, env, stack)
+            if st.finalbody:
+                self.out.append("]finally[")
+                self.stmts(st.finalbody, env, stack)
+            self.out.append("]")
+        elif isinstance(st, ast.Break):
+            self.out.append("exit")
+        elif isinstance(st, ast.Pass):
+            pass
+        else:
+            self.out.append("?stmt " + ast.unparse(st).splitlines()[0])
+
+
+def _effects(fn, methods):
+    e = _Effects(methods)
+    params = [a.arg for a in fn.args.args]
+    env = {"self": "self"}
+    for i, p_ in enumerate(params[1:]):
+        env[p_] = "arg%d" % i
+    for st in fn.body:
+        if isinstance(st, ast.Return):
+            e.out.append("return")
+            break
+        e.stmt(st, env, (fn.name,))
+    return e.out
+
+
 def _shape(fn, methods):
     """(accesses of the shared pool attributes inside `with self.count_lock`, outside, blocking calls inside the lock).
     Calls of other methods of the same class (`self._helper(...)`, `self.num_workers()`, `Pool._helper(...)`) are followed:
@@ -195,10 +361,10 @@ def extract():
             "def defaultMax : Nat := %d\n"
             % (", ".join(rows), facts["lockKind"], blocking + facts["blockingInsideLock"], facts["untimedJoins"],
                facts["unlockedAccesses"], foreign, config.THREADPOOL_SIZE_MIN, config.THREADPOOL_SIZE)
-            + "/-- statement skeletons of the Worker (log calls dropped, one entry per statement, leading blanks = nesting depth);\n"
-              "    the ORDER of these statements is the concurrency-relevant fact, it cannot be probed sequentially -/\n"
-            + lst("workerProcess", _flat(wm["process"].body))
-            + lst("workerRun", _flat(wm["run"].body))
+            + "/-- effect sequences of the Worker (harness/props/c18.py `_Effects`): effects on the event, the job slot and the pool in\n"
+              "    evaluation order, private helpers of the class expanded in place; the ORDER is the concurrency-relevant fact -/\n"
+            + lst("workerProcess", _effects(wm["process"], wm))
+            + lst("workerRun", _effects(wm["run"], wm))
             + "/-! behaviour tables: the real methods called on every small pool state (encoding: harness/props/c18_probe.py) -/\n"
             + tab("initTable", "Pool() for sizes 0..3 x 0..3: [[min,max],[result,|idle|,|busy|,closed,lock exists before the first worker starts,workers started]]", pr["init"])
             + tab("processTable", "Pool.process(job)", pr["process"])
